@@ -123,7 +123,9 @@ impl Model {
 }
 
 fn value_of(c: &Case, idx: usize) -> f64 {
-	if idx < c.len() {
+	// a slice may extend past the end of the audio data: the part that has no data is silence
+	let abs = c.slice.map(|(s, _)| s).unwrap_or(0) + idx;
+	if idx < c.len() && abs < c.total {
 		(idx + 1) as f64
 	} else {
 		0.0 // a position past the end of the slice is silence
@@ -318,10 +320,25 @@ fn enumerate_small(max_total: usize, srs: &[(u32, u32)], f: &mut dyn FnMut(u64, 
 /// the heard index is within one frame of the requested one; the reported position names the frame
 /// being heard to within one frame.
 fn run_commands(ctx: &mut Ctx, stream: &str, idx: u64, r: &mut Rng, stats: &mut Stats) {
-	let len = r.usize_in(64, 100_000);
+	// sometimes the sound is a slice of a longer buffer: indices below are relative to the slice, frames outside it carry
+	// a poison value that is not a source frame
+	let total = r.usize_in(64, 100_000);
+	let slice: Option<(usize, usize)> = if r.chance(0.4) && total > 200 {
+		let a0 = r.usize_in(0, total / 3);
+		Some((a0, r.usize_in(a0 + 64, total - 1)))
+	} else {
+		None
+	};
+	let len = slice.map(|(a0, b0)| b0 - a0).unwrap_or(total);
 	let sr = *r.pick(&[8000u32, 22050, 44100, 48000, 96000]);
 	let chunk = *r.pick(&[1usize, 16, 64, 128, 333]);
-	let frames: Vec<Frame> = (0..len).map(|i| Frame::new((i + 1) as f32, -((i + 1) as f32))).collect();
+	let frames: Vec<Frame> = (0..total)
+		.map(|i| match slice {
+			Some((a0, b0)) if i < a0 || i >= b0 => Frame::new(3.0e6 + i as f32, 3.0e6),
+			Some((a0, _)) => Frame::new((i - a0 + 1) as f32, -((i - a0 + 1) as f32)),
+			None => Frame::new((i + 1) as f32, -((i + 1) as f32)),
+		})
+		.collect();
 	let mut lp: Option<(usize, usize)> = if r.chance(0.5) {
 		let a = r.below(len as u64 - 1) as usize;
 		Some((a, r.usize_in(a + 1, len)))
@@ -332,8 +349,8 @@ fn run_commands(ctx: &mut Ctx, stream: &str, idx: u64, r: &mut Rng, stats: &mut 
 	if let Some((a, b)) = lp {
 		st = st.loop_region(Region { start: PlaybackPosition::Samples(a), end: EndPosition::Custom(PlaybackPosition::Samples(b)) });
 	}
-	let data = StaticSoundData { sample_rate: sr, frames: frames.into(), settings: st, slice: None };
-	let detail_base = format!("len {} sr {} chunk {} initial loop {:?}", len, sr, chunk, lp);
+	let data = StaticSoundData { sample_rate: sr, frames: frames.into(), settings: st, slice };
+	let detail_base = format!("len {} (slice {:?} of {}) sr {} chunk {} initial loop {:?}", len, slice, total, sr, chunk, lp);
 	let verbose = ctx.verbose;
 	let res = super::guarded(|| -> Result<(), String> {
 		let (mut sound, mut handle): (Box<dyn Sound>, StaticSoundHandle) = data.into_sound().map_err(|_| "into_sound".to_string())?;
@@ -355,7 +372,13 @@ fn run_commands(ctx: &mut Ctx, stream: &str, idx: u64, r: &mut Rng, stats: &mut 
 					let a = r.below(len as u64 - 1) as usize;
 					Some((a, r.usize_in(a + 1, len)))
 				};
+				// (a region that runs to the end of the sound is sometimes given open-ended: `a..`)
+				let region = match region {
+					Some((a, _)) if r.chance(0.25) => Some((a, len)),
+					other => other,
+				};
 				match region {
+					Some((a, b)) if b == len && r.chance(0.7) => handle.set_loop_region(Region { start: PlaybackPosition::Samples(a), end: EndPosition::EndOfAudio }),
 					Some((a, b)) => handle.set_loop_region(Region { start: PlaybackPosition::Samples(a), end: EndPosition::Custom(PlaybackPosition::Samples(b)) }),
 					None => handle.set_loop_region(None),
 				}
@@ -398,6 +421,9 @@ fn run_commands(ctx: &mut Ctx, stream: &str, idx: u64, r: &mut Rng, stats: &mut 
 			let reported = handle.position();
 			sound.process(&mut out[..chunk], dt, &info);
 			stats.frames += chunk as u64;
+			if lp.is_some() && since_loop_change > 8 && pending_seek.is_none() && handle.state() == PlaybackState::Stopped {
+				return Err(format!("cb {}: the sound is Stopped although a loop region {:?} has been in force for {} frames [{}]", cb, lp, since_loop_change, log.join("; ")));
+			}
 			for (i, o) in out[..chunk].iter().enumerate() {
 				if o.left == 0.0 && o.right == 0.0 {
 					// silence: only legal once the sound has ended
@@ -527,7 +553,8 @@ pub fn run(ctx: &mut Ctx) {
 		let total = r.usize_in(7, if big { 100_000 } else { 3000 });
 		let slice = if r.chance(0.5) {
 			let s = r.below(total as u64) as usize;
-			Some((s, r.usize_in(s, total)))
+			// (sometimes ending past the audio data: the in-range frames play, the rest is silence)
+			Some((s, if r.chance(0.15) { total + r.usize_in(1, 40) } else { r.usize_in(s, total) }))
 		} else {
 			None
 		};
